@@ -229,6 +229,44 @@ func c12(c *Ctx) {
 				}
 			}
 		}
+		nSetters := 0
+		// the override is recorded: some exported Builder method that takes one string and answers with the builder itself
+		// without consulting the package name (the setter) stores that string into the package field
+		for _, f := range root {
+			if f.Signature.Recv() == nil || !recvIs(f, builder) || f.Object() == nil || !f.Object().Exported() || f.Blocks == nil {
+				continue
+			}
+			sig := f.Signature
+			if sig.Params().Len() != 1 || sig.Results().Len() != 1 || !types.Identical(sig.Results().At(0).Type(), sig.Recv().Type()) {
+				continue
+			}
+			if b, ok := sig.Params().At(0).Type().Underlying().(*types.Basic); !ok || b.Kind() != types.String {
+				continue
+			}
+			callsOut := false
+			eachInstr(f, func(i ssa.Instruction) {
+				if ci, ok := i.(ssa.CallInstruction); ok {
+					if cal := staticCallee(ci.Common()); cal != nil && strings.HasPrefix(pkgPathOf(cal), Mod) {
+						callsOut = true
+					}
+				}
+			})
+			if callsOut {
+				continue
+			}
+			stored := false
+			eachInstr(f, func(i ssa.Instruction) {
+				if st, ok := i.(*ssa.Store); ok {
+					if fa, ok := st.Addr.(*ssa.FieldAddr); ok && fieldVar(fa.X.Type(), fa.Field) == pkgFld && resolveLocal(st.Val) == ssa.Value(f.Params[1]) && resolveLocal(fa.X) == ssa.Value(f.Params[0]) {
+						stored = true
+					}
+				}
+			})
+			if stored {
+				nSetters++
+			}
+		}
+		r.Check(nSetters > 0, "C12.R3", "package override is recorded", p.Pos(builder.Obj().Pos()), "an exported Builder method stores its string argument into the package field", "no exported Builder method records a package override (b.pkg = name is gone): Pkg(\"x\") has no effect and the next lookup still resolves in the caller's package")
 		if len(resetFns) == 0 {
 			r.Bad("C12.R3", "package override reset", p.Pos(builder.Obj().Pos()), "no Builder method puts the package name back to the caller's package")
 		}
